@@ -1206,16 +1206,27 @@ error:
  **********************************************************************/
 
 /*
+ * descend_mode_t: what parse_and_descend is called for
+ */
+typedef enum descend_mode {
+    DM_GET,				/* look-up only, don't modify */
+    DM_SET_VALUE,			/* vnaproperty_vset */
+    DM_SET_SUBTREE			/* vnaproperty_vset_subtree */
+} descend_mode_t;
+
+/*
  * parse_and_descend: parse the expression and descend down the tree
  *   @parser:  address of caller-allocated parser state structure
  *   @rootptr: address of property data root
- *   @set:     force the tree to conform to the indicated expression
+ *   @mode:    DM_GET, or force the tree to conform to the expression
  *   @format:  printf-like format string forming the property expression
  *   @ap       variable argument pointer
  */
 static vnaproperty_t **parse_and_descend(parser_t *parser,
-	vnaproperty_t **rootptr, bool set, const char *format, va_list ap)
+	vnaproperty_t **rootptr, descend_mode_t mode,
+	const char *format, va_list ap)
 {
+    const bool set = (mode != DM_GET);
     vnaproperty_t **anchor = rootptr;
     vnaproperty_t *node = *anchor;
     vnaproperty_t *collection = NULL;
@@ -1225,6 +1236,27 @@ static vnaproperty_t **parse_and_descend(parser_t *parser,
      */
     if (parse(parser, format, ap) == -1) {
 	return NULL;
+    }
+
+    /*
+     * When setting, reject a malformed request before modifying the
+     * tree: a value can't be assigned to {} or [], the descriptor must
+     * be followed by =value or #, and a subtree descriptor must not be
+     * followed by anything.
+     */
+    if (mode == DM_SET_VALUE) {
+	if (parser->prs_tail->ex_type == E_MAP ||
+		parser->prs_tail->ex_type == E_LIST ||
+		(parser->prs_scn.scn_token != T_ASSIGN &&
+		 parser->prs_scn.scn_token != T_HASH)) {
+	    errno = EINVAL;
+	    goto error;
+	}
+    } else if (mode == DM_SET_SUBTREE) {
+	if (parser->prs_scn.scn_token != T_EOF) {
+	    errno = EINVAL;
+	    goto error;
+	}
     }
 
     /*
@@ -1385,7 +1417,7 @@ static const vnaproperty_t *get_node(const vnaproperty_t *root,
      * Parse the expression and descend to the requested node.
      */
     if ((anchor = parse_and_descend(&parser, (vnaproperty_t **)&root,
-		    /*set*/false, format, ap)) == NULL) {
+		    DM_GET, format, ap)) == NULL) {
 	return NULL;
     }
 
@@ -1596,7 +1628,7 @@ int vnaproperty_vset(vnaproperty_t **rootptr, const char *format, va_list ap)
     vnaproperty_t *value = NULL;
     int rv = -1;
 
-    if ((anchor = parse_and_descend(&parser, rootptr, /*set*/true,
+    if ((anchor = parse_and_descend(&parser, rootptr, DM_SET_VALUE,
 		    format, ap)) == NULL) {
 	return -1;
     }
@@ -1670,7 +1702,7 @@ int vnaproperty_vdelete(vnaproperty_t **rootptr, const char *format,
     /*
      * Parse the expression and descend to the requested node.
      */
-    if ((anchor = parse_and_descend(&parser, rootptr, /*set*/false,
+    if ((anchor = parse_and_descend(&parser, rootptr, DM_GET,
 		    format, ap)) == NULL) {
 	return -1;
     }
@@ -1725,7 +1757,7 @@ vnaproperty_t *vnaproperty_vget_subtree(const vnaproperty_t *root,
     vnaproperty_t *result = NULL;
 
     if ((anchor = parse_and_descend(&parser, (vnaproperty_t **)&root,
-		    /*set*/false, format, ap)) == NULL) {
+		    DM_GET, format, ap)) == NULL) {
 	return NULL;
     }
 
@@ -1757,7 +1789,7 @@ vnaproperty_t **vnaproperty_vset_subtree(vnaproperty_t **rootptr,
     vnaproperty_t **anchor;
 
     if ((anchor = parse_and_descend(&parser, rootptr,
-		    /*set*/true, format, ap)) == NULL) {
+		    DM_SET_SUBTREE, format, ap)) == NULL) {
 	return NULL;
     }
 
